@@ -231,12 +231,21 @@ func (dec *msgAppV2Decoder) decode() (raftpb.Message, error) {
 			return m, err
 		}
 		l := binary.BigEndian.Uint64(dec.uint64buf)
+		// the counts and sizes come from the stream: refuse what cannot be a valid message
+		// (as messageDecoder does) instead of allocating it. Every entry takes at least the
+		// 8 bytes of its length prefix.
+		if l > readBytesLimit/8 {
+			return m, ErrExceedSizeLimit
+		}
 		m.Entries = make([]raftpb.Entry, int(l))
 		for i := 0; i < int(l); i++ {
 			if _, err := io.ReadFull(dec.r, dec.uint64buf); err != nil {
 				return m, err
 			}
 			size := binary.BigEndian.Uint64(dec.uint64buf)
+			if size > readBytesLimit {
+				return m, ErrExceedSizeLimit
+			}
 			var buf []byte
 			if size <= msgAppV2BufSize {
 				buf = dec.buf[:size]
@@ -265,6 +274,9 @@ func (dec *msgAppV2Decoder) decode() (raftpb.Message, error) {
 		var size uint64
 		if err := binary.Read(dec.r, binary.BigEndian, &size); err != nil {
 			return m, err
+		}
+		if size > readBytesLimit {
+			return m, ErrExceedSizeLimit
 		}
 		var buf []byte
 		if size <= msgAppV2BufSize {
